@@ -52,6 +52,11 @@ def httpconn_queries(tier):
               {"mode": "full write of 6 bytes", "transport_accepts": c, "iovs": niov})
     for first in (1, 3, 6):
         q("write-raw-first%d" % first, {"MODE": 3, "RAWWR": 1, "SEGS": "%d, 9" % first, "NIOV": 2, "L": 6}, {"mode": "raw write", "transport_accepts_first": first})
+    # the stream stops early: nothing is completed prematurely
+    q("res-short-head", {"MODE": 1, "FLAVOR": 1, "SEGS": "3, 2", "NIOV": 1, "L": 5}, {"mode": "head incomplete when the stream pauses", "segments": [3, 2]})
+    q("res-short-body", {"MODE": 1, "FLAVOR": 1, "SEGS": "7, 2", "NIOV": 1, "L": 5}, {"mode": "exact read incomplete when the stream pauses", "segments": [7, 2]})
+    q("discard-short-body", {"MODE": 2, "SEGS": "3, 1", "D": 3, "L": 4}, {"mode": "exact read after discard incomplete when the stream pauses", "segments": [3, 1]})
+    q("write-full-short", {"MODE": 3, "SEGS": "2, 1", "NIOV": 2, "L": 6}, {"mode": "full write: the transport pauses after 3 of 6 bytes", "transport_accepts": [2, 1]})
     for fl, fn in ((0, "req"), (1, "res")):
         for segs in ([16, 8], [7, 9, 8], [15, 1, 8]):
             q("toolong-%s-segs%s" % (fn, "_".join(map(str, segs))), {"MODE": 4, "FLAVOR": fl, "SEGS": ", ".join(map(str, segs)), "LINE1": 20, "HDREND": 22},
@@ -96,7 +101,7 @@ def queries(tier):
             for lclass in (0, 1):
                 qs.append(Query("ws-header-%s-parked%d-lclass%d" % ("server" if server else "client", npk, lclass), "c16/wsframe.c", tus=["core/list.c"], env=WENV,
                                 defs={"SERVER": server, "LCLASS": lclass, "MASKED": server, "OP": 0, "NPARK": npk, "PLEN": 3}, unwind=30, timeout=300,
-                                group="c16/wsframe.c#parked", params={"stage": 2, "role": "server" if server else "client", "parked_fragments": npk,
+                                group="~c16/wsframe.c#parked", params={"stage": 2, "role": "server" if server else "client", "parked_fragments": npk,
                                                                       "parked_payload": 3, "length_form": lclass, "opcode": "CONT"}))
     qs.append(Query("ws-preptx-server-symbolic-length", "c16/wsframe.c", tus=["core/list.c"], env=WENV, defs={"PREPTX": 1}, unwind=12, timeout=600, mem_gb=8,
                     group="~c16/wsframe.c#preptx", params={"kernel": "ws_frame_prep_tx", "role": "server", "payload_length": "symbolic 0..2^63-1", "fragsize": "symbolic"}))
